@@ -97,9 +97,9 @@ def run(prog: Program, ctx: Ctx) -> None:  # noqa: PLR0912,PLR0915
             attrs["kind"] = K[kind]
         o = Obj(None, attrs, label=label or kind)
         if broken:
-            o.attrs["final_target"] = lazy(boom)
+            o.attrs["final_target"] = o.attrs["target"] = lazy(boom)
         else:
-            o.attrs["final_target"] = o  # a resolved alias standing for its target (the table looks at the dispatch, not at the chain)
+            o.attrs["final_target"] = o.attrs["target"] = o  # a resolved alias standing for its target (the chain rows below tell the two apart)
         return o
 
     handler = {"MODULE": "_merge_module_stubs", "CLASS": "_merge_class_stubs", "FUNCTION": "_merge_function_stubs", "ATTRIBUTE": "_merge_attribute_stubs"}
@@ -146,6 +146,28 @@ def run(prog: Program, ctx: Ctx) -> None:  # noqa: PLR0912,PLR0915
         ctx.ob("R2", f"row|present={present}|stub_alias={stub_alias}|runtime={'unresolvable alias' if broken else ok_}|stub={sk}" + ("|name also imported by the stub scope" if also_imported else ""), good,
                f"expected {want}; got events={names} raised={raised}", where(mm))
         ctx.ob("R2", f"imports|present={present}|{ok_}|{sk}|{stub_alias}|{broken}|{also_imported}", obj.attrs["imports"].get("x") == "y", "stub imports are merged into the runtime imports", where(mm), nontrivial=False)
+    # a runtime member that is a re-export two imports away from the object: the stubs are merged into the object at the end of the chain
+    for kind_ in K:
+        events.clear()
+        real = member(kind_, label="the real object")
+        hop = member(kind_, alias=True, label="intermediate alias")
+        hop.attrs["final_target"], hop.attrs["target"] = real, real
+        outer = member(kind_, alias=True, label="re-export")
+        outer.attrs["final_target"], outer.attrs["target"] = real, hop
+        for o_ in (real, hop, outer):
+            o_.attrs["is_imported"] = o_ is not real
+        s_m = member(kind_, label="stub")
+        s_m.attrs["is_imported"] = False
+        members = {"m": outer}
+        obj = Obj(None, {"members": members, "imports": {}, "get_member": Native(lambda n, members=members: members[n]), "set_member": Native(lambda n, v: events.append(("set_member", (n, v)))), "path": "p"})
+        try:
+            it.call(mm, obj, Obj(None, {"members": {"m": s_m}, "imports": {}}))
+            got_ev: object = [(e[0], e[1][0].label if isinstance(e[1][0], Obj) else e[1][0]) for e in events]
+        except Raised as r:
+            got_ev = f"raises {r.exc}"
+        rows += 1
+        ctx.ob("R2", f"row|runtime member re-exported through two imports|{kind_}", got_ev == [(handler[kind_], "the real object")],
+               f"runtime {kind_} reached through `re-export -> intermediate alias -> object`: merge calls {got_ev}; expected {handler[kind_]} on the real object", where(mm))
     ctx.expect_min("R2", rows, 60)
     for k in list(it.stubs):
         del it.stubs[k]
@@ -257,6 +279,30 @@ def run(prog: Program, ctx: Ctx) -> None:  # noqa: PLR0912,PLR0915
                    f"{label}: wildcard imports of the runtime module are expanded (private sibling `_pkg` allowed) after it is loaded and before its stubs are: "
                    f"expansions {[(o_.attrs.get('name'), ext, at) for o_, ext, at in expansions]}", where(lp))
     itm.stubs.clear()
+
+    # the stubs-only package is found by the *top-level* name, whatever object of the package was asked for
+    from sa.rules.C14 import _vfs
+
+    itf = Interp(prog, max_steps=400_000)
+    itf.ext_handlers["pathlib.Path"] = lambda _i, *a: PurePosixPath(*[str(x) for x in a])
+    itf.ext_handlers["os.path.splitext"] = lambda _i, p_: __import__("os").path.splitext(p_)
+    itf.ext_handlers["os.path.exists"] = lambda i_, p_: PurePosixPath(p_) in i_.vfs["files"] or PurePosixPath(p_) in i_.vfs["dirs"]
+    itf.stubs["_griffe.finder._is_pkg_style_namespace"] = lambda _i, _init: False
+    fs_fn = prog.function("_griffe.finder.ModuleFinder.find_spec")
+    fcls_ = prog.cls("_griffe.finder.ModuleFinder")
+    layouts_f = {"pkg-stubs next to the package": {"/s/pkg/__init__.py": "", "/s/pkg/core.py": "", "/s/pkg-stubs/__init__.pyi": "", "/s/pkg-stubs/core.pyi": ""},
+                 "stubs-only package": {"/s/pkg-stubs/__init__.pyi": "", "/s/pkg-stubs/core.pyi": ""}}
+    for (lname, files_f), spec in itertools.product(layouts_f.items(), ("pkg", "pkg.core", "pkg.core.Engine.start")):
+        itf.vfs = _vfs(files_f)
+        itf.steps = 0
+        try:
+            fo = itf._construct(fcls_, [["/s"]], {})
+            name_, pk_ = itf.call(fs_fn, fo, spec, try_relative_path=False, find_stubs_package=True)
+            got_f: object = (name_, str(pk_.attrs.get("path")), str(pk_.attrs.get("stubs")))
+        except Raised as r:
+            got_f = f"raises {r.exc}"
+        want_f = (spec, "/s/pkg/__init__.py", "/s/pkg-stubs/__init__.pyi") if "next to" in lname else (spec, "/s/pkg-stubs/__init__.pyi", "None")
+        ctx.ob("R4", f"find-stubs-package|{lname}|{spec}", got_f == want_f, f"{lname}: find_spec({spec!r}, find_stubs_package=True) = {got_f}; expected {want_f}", where(fs_fn))
 
     # ------------------------------------------------------------------ R5 alias discipline
     ctx.rule("R5", "no alias error can escape a merge: every dereference of a possibly-alias member in merger.py is guarded, handled or tabled")
